@@ -1150,3 +1150,7 @@ impl CommandHeader {
         }
     }
 }
+
+#[cfg(kani)]
+#[path = "/verif/harness/master_request.rs"]
+mod verif_harness;
